@@ -22,8 +22,12 @@ Representation decisions (also listed in `props/C13.json`):
 * `KIteratorOutput::ValuePair(a, b)` is represented by its `collect_pair` image `tuple [a, b]`. The
   only places where the code distinguishes a pair from a 2-tuple (`Enumerate`, `Zip`, `to_map`, the
   callback argument packing) treat both the same way.
-* States are values, so `make_copy` is the identity on model states. Aliasing created by handing the
-  *same* `KIterator` to two owners (`Iterator(i) => Ok(i)` in `make_iterator`) is outside the model.
+* States are values, so `make_copy` is the identity on model states: every adaptor's `make_copy`
+  copies its input iterator(s), and `Peekable::copy` copies the wrapped iterator (since /repo commit
+  7e68542; before, the derived `Clone` shared it — finding F-C13-2). Aliasing created by handing the
+  *same* `KIterator` to two owners (`Iterator(i) => Ok(i)` in `make_iterator`) and the position an
+  `@next` object keeps in its own map entries (shared by `MetaIterator::make_copy`, finding F-C13-3)
+  are outside the model.
 * `KIteratorOutput::Error` is not modelled: callbacks are total functions from a fixed menu. Errors
   arise at construction (`chunks 0`, `windows 0`, `step 0`, `reversed` of a forward-only iterator)
   and in consumers (`+`, `<` on unsupported operands, unhashable map keys).
@@ -141,12 +145,13 @@ def seqCo (xs : List Val) : Co where
   back s := if s.stop > s.idx then ⟨xs[s.stop - 1]?, ⟨s.idx, s.stop - 1⟩, []⟩ else ⟨none, s, []⟩
   bidir := true
 
-/-- ByteIterator (`KIterator::with_bytes`): as the code stands, `next_back` decrements `end` but reads
-`bytes[index]` -/
+/-- ByteIterator (`KIterator::with_bytes`): the same cursor pair as the list iterator; `next_back`
+decrements `end` and reads `bytes[end]` (since /repo commit 0c6b903; before it read `bytes[index]`,
+finding F-C13-1) -/
 def hostBytesCo (xs : List Val) : Co where
   σ := Idx
   next s := if s.stop > s.idx then ⟨xs[s.idx]?, ⟨s.idx + 1, s.stop⟩, []⟩ else ⟨none, s, []⟩
-  back s := if s.stop > s.idx then ⟨xs[s.idx]?, ⟨s.idx, s.stop - 1⟩, []⟩ else ⟨none, s, []⟩
+  back s := if s.stop > s.idx then ⟨xs[s.stop - 1]?, ⟨s.idx, s.stop - 1⟩, []⟩ else ⟨none, s, []⟩
   bidir := true
 
 /-- a bounded `KRange` being consumed -/
@@ -577,6 +582,47 @@ def peekableCo (c : Co) : Co where
       | none => ⟨s.front, ⟨r.st, none, none⟩, r.ev⟩
   bidir := c.bidir
 
+/-- the script-visible operations of a `Peekable` object -/
+inductive PeekOp where
+  | next | back | peek | peekBack
+  deriving Repr, DecidableEq, Inhabited
+
+/-- `Peekable::peek`: the cached front value, else `self.next()` (which falls back to the cached
+back value when the wrapped iterator is exhausted) whose result is cached in `peeked_front` -/
+def peekFront (c : Co) (s : Peek c.σ) : Res (Peek c.σ) :=
+  match s.front with
+  | some v => ⟨some v, s, []⟩
+  | none =>
+    let r := (peekableCo c).next s
+    match r.out with
+    | none => ⟨none, r.st, r.ev⟩
+    | some v => ⟨some v, { r.st with front := some v }, r.ev⟩
+
+/-- `Peekable::peek_back`, symmetric -/
+def peekRear (c : Co) (s : Peek c.σ) : Res (Peek c.σ) :=
+  match s.rear with
+  | some v => ⟨some v, s, []⟩
+  | none =>
+    let r := (peekableCo c).back s
+    match r.out with
+    | none => ⟨none, r.st, r.ev⟩
+    | some v => ⟨some v, { r.st with rear := some v }, r.ev⟩
+
+def peekStep (c : Co) (op : PeekOp) (s : Peek c.σ) : Res (Peek c.σ) :=
+  match op with
+  | .next => (peekableCo c).next s
+  | .back => (peekableCo c).back s
+  | .peek => peekFront c s
+  | .peekBack => peekRear c s
+
+/-- a sequence of operations on a `Peekable`; outputs (or the end marker) collected -/
+def runPeekOps (c : Co) (endM : Val) : List PeekOp → Peek c.σ → List Val × Peek c.σ × List Ev
+  | [], s => ([], s, [])
+  | op :: ops, s =>
+    let r := peekStep c op s
+    let (vs, s', e) := runPeekOps c endM ops r.st
+    (r.out.getD endM :: vs, s', r.ev ++ e)
+
 /-- `PairFirst` / `PairSecond` (`map.keys`, `map.values`): forward only -/
 def pairCo (first : Bool) (c : Co) : Co where
   σ := c.σ
@@ -805,6 +851,7 @@ inductive Cons where
   | advance (n : Nat)              -- `advance n`, then `to_list`
   | unpack                         -- `a, b, c = it`
   | copyAt (k : Nat) (copyFirst : Bool)
+  | peekOps (ops : List PeekOp)    -- `.peekable()` on the pipeline, then next/next_back/peek/peek_back
   deriving Repr, Inhabited
 
 def endMarker : Val := .str [69, 78, 68]   -- 'END'
@@ -985,7 +1032,13 @@ def runCons (fuel : Nat) (it : It) : Cons → Ans × List Ev
 def runCase (fuel : Nat) (p : Pipe) (c : Cons) : Ans × List Ev :=
   match p.err with
   | some e => (.error e, [])
-  | none => runCons fuel (build fuel p) c
+  | none =>
+    match c with
+    | .peekOps ops =>
+      let it := build fuel p
+      let (vs, _, e) := runPeekOps it.c endMarker ops ⟨it.s, none, none⟩
+      (.ok (.list vs), e)
+    | c => runCons fuel (build fuel p) c
 
 /-! ### the mathematical definition (`den`) -/
 
@@ -1099,9 +1152,20 @@ def specCalls (bidir : Bool) : List Bool → List Val → List Val
       | none => endMarker :: specCalls bidir ds xs
     else endMarker :: specCalls bidir ds xs
 
+/-- `Peekable` operations on an ideal double-ended sequence: `peek` / `peek_back` look at the ends
+without removing anything -/
+def specPeekOps : List PeekOp → List Val → List Val
+  | [], _ => []
+  | .next :: ops, xs => xs.head?.getD endMarker :: specPeekOps ops xs.tail
+  | .back :: ops, xs => xs.getLast?.getD endMarker :: specPeekOps ops xs.dropLast
+  | .peek :: ops, xs => xs.head?.getD endMarker :: specPeekOps ops xs
+  | .peekBack :: ops, xs => xs.getLast?.getD endMarker :: specPeekOps ops xs
+
 /-- consumer applied to a plain list -/
 def specCons (bidir : Bool) (c : Cons) (xs : List Val) : Ans :=
   match c with
+  | .peekOps ops => if bidir || ops.all (fun o => o == .next || o == .peek) then .ok (.list (specPeekOps ops xs))
+                    else .error .unsupported
   | .calls dirs => .ok (.list (specCalls bidir dirs xs))
   | .advance n => .ok (.tuple [Val.int (n - xs.length : Nat), .list (xs.drop n)])
   | .unpack => .ok (.tuple ((xs.take 3) ++ List.replicate (3 - xs.length) Val.null))
